@@ -91,6 +91,7 @@ def read_dot(src: str):
     order = []
     edges = []
     dup = []
+    ignored = 0
     for line in src.splitlines():
         s = line.strip()
         if not s or s.startswith("//") or s.startswith("digraph") or s.startswith("graph ") or s == "}" or s == "{":
@@ -124,8 +125,10 @@ def read_dot(src: str):
             nodes[nid] = cells
             order.append(nid)
             continue
-        raise DotReadError(f"unrecognised DOT statement: {line[:120]!r}")
-    return {"nodes": nodes, "edges": edges, "order": order, "duplicate_ids": dup}
+        if "->" in line.split("[", 1)[0]:
+            raise DotReadError(f"unreadable edge statement: {line[:120]!r}")
+        ignored += 1  # attribute assignments, subgraph/rank statements and the like carry no node or edge
+    return {"nodes": nodes, "edges": edges, "order": order, "duplicate_ids": dup, "ignored_statements": ignored}
 
 
 def graph_tree(g):
